@@ -196,7 +196,7 @@ func c06Check(c C06Case, rec *evid.Rec) error {
 		// the correct block with a (0, nil) read after EVERY offset must load
 		for k := 1; k <= len(block); k++ {
 			k := k
-			faults = append(faults, c06Fault{class: "zero-read", lenient: true, served: block, rd: func() io.Reader { return &faultReader{data: block, failAt: -1, zeroAt: k} }})
+			faults = append(faults, c06Fault{class: "zero-read", served: block, rd: func() io.Reader { return &faultReader{data: block, failAt: -1, zeroAt: k} }})
 		}
 	}
 	if otherBlock != nil && !bytes.Equal(otherBlock, block) {
